@@ -192,6 +192,14 @@ Theorem C07_retagging_last_definition_wins :
 Proof. split; [exact with_tags_lookup | exact tag_history_last]. Qed.
 Print Assumptions C07_retagging_last_definition_wins.
 
+(* complement_dofs of several sets (or of a dictionary of views) is the sorted complement of their UNION in [0, N) *)
+Theorem C07_complement_of_several_sets :
+  forall (N : nat) (Ds : list (list nat)),
+    StronglySorted Nat.lt (complement_many N Ds) /\
+    forall x, In x (complement_many N Ds) <-> x < N /\ forall D, In D Ds -> ~ In x D.
+Proof. intros N Ds. split; [apply complement_sorted | intros x; apply complement_many_in]. Qed.
+Print Assumptions C07_complement_of_several_sets.
+
 (* the argument-free query selects the boundary facets of C11 (exactly the facets with a single neighbour), and the complement
    query is the set complement in [0, N) *)
 Theorem C07_boundary_default_and_complement :
